@@ -431,8 +431,34 @@ def loop_switches(b, v, header):
     return out
 
 
+def layer_scan(ctx, F, rule):
+    """RealInode::readdir (one layer's entries, the input of the union): every entry the layer returns is recorded, except exactly
+    the names "." and ".." (compared for equality, nothing else may filter: dot files are ordinary entries)."""
+    b = F.method(RIN, "readdir")
+    ctx.fn_seen(b)
+    cls = [c for c in F.closures_of(b.key) if any(x.name == "push" for x in live_calls(c))]
+    if not ctx.check(rule, "layer-scan/closure", len(cls) == 1, "RealInode::readdir: %d entry-collecting closures" % len(cls), loc=b.loc()):
+        return
+    cl = cls[0]
+    v = vf.VF(cl, inline_depth=0)
+    ps = [x for x in live_calls(cl) if x.name == "push"]
+    g = [(R(x, cl, v), l) for (x, l, u) in v.guards(ps[0].bb)]
+    g = [(t, l) for (t, l) in g if "log::" not in t and "Trace" not in t and "max_level" not in t]
+    name = "Cow::into_owned(String::from_utf8_lossy(d.name))"
+    want = sorted([("String::eq(%s, k(overlayfs::CURRENT_DIR))" % name, 0), ("String::eq(%s, k(overlayfs::PARENT_DIR))" % name, 0)])
+    alt = sorted([("Eq(%s, k(overlayfs::CURRENT_DIR))" % name, 0), ("Eq(%s, k(overlayfs::PARENT_DIR))" % name, 0)])
+    ctx.check(rule, "layer-scan/only-dot-entries-skipped", len(ps) == 1 and sorted(g) in (want, alt),
+              "RealInode::readdir records a layer entry under %s; only the names `.` and `..` (by equality) may be left out of a layer's listing" % g, loc=ps[0].loc())
+    cur = (F.consts.get("overlayfs::CURRENT_DIR") or {}).get("bytes")
+    par = (F.consts.get("overlayfs::PARENT_DIR") or {}).get("bytes")
+    ctx.check(rule, "layer-scan/dot-constants", cur == [46] and par == [46, 46], "CURRENT_DIR/PARENT_DIR are %s/%s, not \".\" and \"..\"" % (cur, par), loc=b.loc())
+    a = [R(x, cl, v) for x in v.call_args(ps[0])]
+    ctx.check(rule, "layer-scan/records-name", len(a) == 2 and a[1] == name, "RealInode::readdir records `%s` instead of the entry's name" % (a[1:] or "?"), loc=ps[0].loc())
+
+
 def r4_union(ctx, F):
     rule = "R4-union"
+    layer_scan(ctx, F, rule)
     # ---- new_from_real_inodes
     b = F.method(OIN, "new_from_real_inodes")
     ctx.fn_seen(b)
